@@ -425,6 +425,34 @@ func runC12(c *Ctx) {
 			add("options", "options "+rp.lease+" uses the lease's subnet options and lease time", fn, ins, okOpts && lt, "opts = lease.subnet.CopyOptions(); opts[51] = lease time of that subnet", fmt.Sprintf("options=%s lease-time=%v", shortLease(norm(a[8])), lt))
 		}
 	}
+	// never ACK what cannot be honoured: every entry into the acknowledgement section has an offer or a lease
+	r.Rule("ack", "the acknowledgement section is entered only with an outstanding offer or lease", 3)
+	if hr := c.P.Method(dhcpRel, "Handler", "handleRequest"); hr != nil {
+		var join *ssa.BasicBlock
+		core.EachInstr(hr, func(i ssa.Instruction) {
+			if s, ok := i.(*ssa.Store); ok && shortLease(norm(s.Addr)) == "LEASE.Name" && norm(s.Val) == "local(nameEntry).Name" && len(i.Block().Preds) > 1 {
+				join = i.Block()
+			}
+		})
+		if join == nil {
+			add("ack", "ack section", hr, nil, false, "", "the acknowledgement section of handleRequest was not found")
+		} else {
+			for k, p := range join.Preds {
+				last := p.Instrs[len(p.Instrs)-1]
+				okState := false
+				var txt []string
+				for _, g := range guardsOf(last) {
+					t := shortLease(g.Text)
+					txt = append(txt, t)
+					if t == "(LEASE.State==2)" || t == "(LEASE.State==1)" || t == "!(LEASE.State==0)" {
+						okState = true
+					}
+				}
+				add("ack", fmt.Sprintf("ack section entry %d requires an offer or lease (else NAK or silence)", k+1), hr, last, okState, "entered under a test establishing State != Free",
+					"a request that cannot be honoured (nothing offered, nothing leased) reaches the ACK: "+strings.Join(txt, " && "))
+			}
+		}
+	}
 	// destination
 	if fn := c.P.Method(dhcpRel, "Handler", "ProcessPacket"); fn != nil {
 		ok := false
